@@ -2106,7 +2106,16 @@ def byte_segments(t):
     is_ = lambda name, *ps: any(_n.is_(name, p) for p in ps)
     while isinstance(t, tuple) and len(t) == 4 and t[0] == "call" and is_(t[1], "Iterator::collect", "IntoIterator::into_iter", "Iterator::copied", "Iterator::cloned", "slice::iter", "Vec::from", "slice::to_vec") and t[2]:
         t = t[2][0]
+    # a borrowed view of the same bytes
+    while isinstance(t, tuple) and len(t) == 4 and t[0] == "call" and t[2] and (is_(t[1], "Vec::as_slice", "array::as_slice", "slice::as_ref", "AsRef::as_ref", "Deref::deref", "Bytes::as_slice")
+                                                                                 or (is_(t[1], "Index::index") and len(t[2]) == 2 and isinstance(t[2][1], tuple) and len(t[2][1]) == 4 and t[2][1][0] == "agg" and str(t[2][1][1]).endswith("RangeFull"))):
+        t = t[2][0]
     if isinstance(t, tuple) and len(t) == 4 and t[0] == "call":
+        if is_(t[1], "slice::concat", "<[T]>::concat", "Concat::concat", "slice::Concat::concat") and len(t[2]) == 1 and isinstance(t[2][0], tuple) and t[2][0] and t[2][0][0] == "array":
+            out = []
+            for e in t[2][0][1]:
+                out += byte_segments(e)
+            return out
         if is_(t[1], "Iterator::chain"):
             return byte_segments(t[2][0]) + byte_segments(t[2][1])
         if is_(t[1], "Vec::new", "Vec::with_capacity") or (is_(t[1], "Default::default") and not t[2]):
